@@ -638,16 +638,24 @@ fn insert_imported_namespace(
         None => {
             let mut syms = vec![];
 
+            // Collect the public items before touching the current
+            // namespace: when a file imports itself, `imported_ns`
+            // and `current_ns` are the same RefCell.
+            let public_items: Vec<(SymbolName, Value)> = {
+                let imported_ns = imported_ns.borrow();
+                imported_ns
+                    .values
+                    .iter()
+                    .filter(|(sym, _)| imported_ns.exported_syms.contains(*sym))
+                    .map(|(sym, value)| (sym.clone(), value.clone()))
+                    .collect()
+            };
+
             // Load all the public items into the current namespace.
-            let imported_ns = imported_ns.borrow();
-            for (sym, value) in &imported_ns.values {
-                if imported_ns.exported_syms.contains(sym) {
-                    current_ns
-                        .borrow_mut()
-                        .values
-                        .insert(sym.clone(), value.clone());
-                    syms.push(sym.clone());
-                }
+            let mut current_ns = current_ns.borrow_mut();
+            for (sym, value) in public_items {
+                current_ns.values.insert(sym.clone(), value);
+                syms.push(sym);
             }
 
             syms
